@@ -3,6 +3,7 @@
 THEOREM_MODULES = ["Hcl.Theorems.C16", "Hcl.Tie.Banks"]
 THEOREMS = {"Hcl.Tie.Banks": ["Tie.Banks.bankOrder"], "Hcl.Theorems.C16": ["C16_hex_roundtrip", "C16_hexpad_roundtrip", "hexDigits_roundtrip", "C16_memory_text", "C16_memory_tokens",
                                                                 "C16_memory_roundtrip", "C16_memory_rows", "C16_memory_reachable",
+                                                                "C16_bank_text", "C16_bank_registers", "C16_banks_all_printed", "Dump.printedBanks_perm",
                                                                 "Dump.memToks_spec", "Dump.walkKey_key", "Yo.load_sorted", "runN_mem_sorted"]}
 
 RULE = ("S-DUMP: machine states set through the verif-hooks setters - program registers 0..2^64-1, 0-4 memory clusters "
